@@ -94,7 +94,6 @@ ExitMsgs(c) ==      \* the documented refusals of the command wrapper whose cond
 (* --access, or --fasta options."                                                                                    *)
 NonHybrid(c) == c.method \in {"wgs", "amplicon"}
 MsgNoAnti(c) == "'" \o c.method \o "' protocol: antitargets should not be given/specified."
-MsgNoAntiRaw == "{method!r} protocol: antitargets should not be given/specified."       \* as coded (r"..." instead of f"...")
 MsgAccTgt(c) == "'" \o c.method \o "' protocol: targets and access should not be different."
 MsgWgsNeeds == "WGS protocol: need to provide --targets, --access, or --fasta options."
 AntiGivenNonHybrid(c) == ~Reuse(c) /\ NonHybrid(c) /\ ~Absent(c.anti)
@@ -127,7 +126,7 @@ ADupIter(c, st) ==
          ELSE [st EXCEPT !.k = @ + 1]
 (* batch_make_reference, the protocol checks: antitargets first, then access vs targets *)
 ARefCheck(c, st) ==
-    IF NonHybrid(c) /\ ~Absent(c.anti) THEN AFail(st, "ValueError", MsgNoAntiRaw)
+    IF NonHybrid(c) /\ ~Absent(c.anti) THEN AFail(st, "ValueError", MsgNoAnti(c))      \* (f-string since 61facc8)
     ELSE IF AccDiffers(c) THEN AFail(st, "ValueError", MsgAccTgt(c))
     ELSE [st EXCEPT !.pc = IF c.method = "wgs" THEN "ref.wgs" ELSE "ref.target", !.src = c.tgt]
 (* method wgs: targets <- targets | access | access computed from the FASTA and written to <fasta base>.bed in the      *)
@@ -165,9 +164,8 @@ ARefBuild(c, st) ==
 AReuse(c, st) ==
     LET tb == InOut(c, SidOf(c.ref) \o <<"target-tmp", "bed">>)
         ab == InOut(c, SidOf(c.ref) \o <<"antitarget-tmp", "bed">>)
-        s1 == [AWrite(AWrite(st, tb), ab) EXCEPT !.pc = "samples", !.tb = tb, !.ab = ab]
-    IN IF Len(c.tumors) > 0 THEN s1
-       ELSE AFail(s1, "TypeError", "object of type 'NoneType' has no len()")    \* logging "No tumor/test samples (but %d normal ...": len(args.normal), None here
+    IN [AWrite(AWrite(st, tb), ab) EXCEPT !.pc = IF Len(c.tumors) = 0 THEN "done" ELSE "samples", !.tb = tb, !.ab = ab]
+       \* no samples: only the log line "No tumor/test samples (but %d normal/control samples)" (len(args.normal or []) since 45f76bb)
 (* batch_run_sample: the files of one sample in the order they are written *)
 SampleSteps(c, s) ==
     [i \in 1..6 |-> SampleFile(c, s, SampleSufs[i])]
@@ -460,11 +458,11 @@ ChunkHolds(cl, r) ==
     (* to_chunks: "Split a BED file into `chunk_size`-line parts for parallelization."  (lines starting with # are skipped)     *)
     cl = "chunks_partition" /\ NoErr(r) /\ BFlatten(r.chunks) = DataLines(r)
     /\ \A i \in 1..Len(r.chunks) : Len(r.chunks[i]) >= 1 /\ Len(r.chunks[i]) <= r.size /\ (i < Len(r.chunks) => Len(r.chunks[i]) = r.size)
-(* A-layer: gzip.open yields bytes, written to a text file -> TypeError; else ceil(k / size) parts *)
+(* A-layer: ceil(k / size) parts; a .gz file is read in text mode like the plain one (since 8a99280) *)
 ChunkCoded(r) == LET d == DataLines(r)
                      n == (Len(d) + r.size - 1) \div r.size
                  IN [i \in 1..n |-> SubSeq(d, (i - 1) * r.size + 1, IF i * r.size < Len(d) THEN i * r.size ELSE Len(d))]
-ChunkDrift(r) == IF r.gz /\ Len(r.lines) > 0 THEN r.err # "TypeError" ELSE (NoErr(r) /\ r.chunks # ChunkCoded(r))
+ChunkDrift(r) == NoErr(r) /\ r.chunks # ChunkCoded(r)
 
 (* ================================================================================ the interface of the trace module  *)
 Clauses(op) == CASE op = "batch" -> BatchClauses [] op = "index" -> IndexClauses [] op = "sorted" -> SortedClauses
@@ -489,16 +487,13 @@ Drift(r) == CASE r.op = "batch" -> BatchDrift(r) [] r.op = "index" -> IndexDrift
               [] r.op = "bamstats" -> StatsDrift(r) [] r.op = "pool" -> PoolDrift(r) [] r.op = "rm" -> RmDrift(r)
               [] r.op = "chunks" -> ChunkDrift(r) [] OTHER -> FALSE
 (* open findings (known_findings.json): narrow characterisations of the inputs on which a documented clause fails *)
-KnownTriggers == {"ScatterAsked", "NonHybridAntitargets", "GzBed", "ReuseNoSamples", "DiagramEveryGeneSquashed"}
+KnownTriggers == {"ScatterAsked", "DiagramEveryGeneSquashed"}
 TriggerHolds(t, r) ==
     CASE t = "ScatterAsked" -> r.op = "batch" /\ r.cfg.scatter /\ Len(r.cfg.tumors) > 0 /\ Ok(r)
-      [] t = "NonHybridAntitargets" -> r.op = "batch" /\ ExitMsgs(r.cfg) = {} /\ AntiGivenNonHybrid(r.cfg)
-      [] t = "ReuseNoSamples" -> r.op = "batch" /\ ~Refused(r.cfg) /\ Reuse(r.cfg) /\ Len(r.cfg.tumors) = 0
       (* every gene of the target bed has >= 2 bins (tgt_min_run: the shortest run of equally named rows) and the sample has *)
       (* no antitarget bins: every row of the .cnr is squashed by the diagram                                              *)
       [] t = "DiagramEveryGeneSquashed" ->
             /\ r.op = "batch" /\ ~Refused(r.cfg) /\ r.cfg.diagram /\ Len(r.cfg.tumors) > 0 /\ r.tgt_min_run >= 2
             /\ LET f == SampleFile(r.cfg, r.cfg.tumors[1], CovA) IN f \in Present(r) /\ RowsOf(r, f) = 0
-      [] t = "GzBed" -> r.op = "chunks" /\ r.gz /\ Len(r.lines) > 0
       [] OTHER -> FALSE
 =============================================================================
